@@ -89,11 +89,14 @@ class World:
         # channels, gateways) *before* this run starts, so that no Channel.__del__ of a previous world
         # executes inside this one (it would shift the line-event count and hence the preemption points)
         hook = sys.unraisablehook
+        err = sys.stderr
         sys.unraisablehook = lambda *a: None
+        sys.stderr = Sink()
         try:
             gc.collect()
         finally:
             sys.unraisablehook = hook
+            sys.stderr = err
         self.knobs = dict(knobs or {})
         self.chooser = chooser or Chooser(replay=[])
         self.sched = Sched(self.chooser, strategy, max_steps=max_steps, max_time=max_time,
